@@ -13,6 +13,7 @@
 #include <vector>
 #include <deque>
 #include <algorithm>
+#include <type_traits>
 #include <frg/vector.hpp>
 #include <frg/small_vector.hpp>
 #include <frg/dyn_array.hpp>
@@ -28,7 +29,25 @@ void verif_case_reset() { reg().reset(); }
 
 namespace {
 
+// Trivially destructible, but with an observable copy/move: every object points at itself and is
+// read through that pointer, so an element that was relocated bytewise (without its move
+// constructor) is read through a pointer into its old storage.
+struct Anchored {
+	int v; const Anchored *self;
+	Anchored() : v(0), self(this) {}
+	Anchored(int x) : v(x), self(this) {}
+	Anchored(const Anchored &o) : v(o.get()), self(this) {}
+	Anchored(Anchored &&o) noexcept : v(o.get()), self(this) {}
+	Anchored &operator=(const Anchored &o) { v = o.get(); return *this; }
+	Anchored &operator=(Anchored &&o) noexcept { v = o.get(); return *this; }
+	int get() const { return self->v; }
+	bool operator==(const Anchored &o) const { return get() == o.get(); }
+	bool operator!=(const Anchored &o) const { return get() != o.get(); }
+};
+static_assert(std::is_trivially_destructible_v<Anchored> && !std::is_trivially_copyable_v<Anchored>);
+int payload(const Anchored &a) { return a.get(); }
 template<typename T> struct Name;
+template<> struct Name<Anchored> { static constexpr const char *n = "Anchored"; };
 template<> struct Name<int> { static constexpr const char *n = "int"; };
 template<> struct Name<Tracked> { static constexpr const char *n = "Tracked"; };
 
@@ -400,9 +419,13 @@ void run_intrusive(Ctx &c) {
 } // namespace
 
 void verif_case(Ctx &c) {
-	unsigned kind = c.t.pick(13);
+	unsigned kind = c.t.pick(17);
 	c.tagf("kind-%u", kind);
 	switch(kind) {
+	case 13: run_vector<Anchored>(c); return;
+	case 14: run_small_vector<Anchored, 4>(c); return;
+	case 15: run_dyn_array<Anchored>(c); return;
+	case 16: run_stack<Anchored>(c); return;
 	case 0: run_vector<int>(c); break;
 	case 1: run_vector<Tracked>(c); break;
 	case 2: run_small_vector<int, 4>(c); break;
